@@ -52,6 +52,7 @@ type c16Case struct {
 	rounds  int
 	size    int
 	empty   bool // messages carry no marker either: zero-length payloads
+	unaligned int // > 0: each handler Write also carries this many bytes of the next frame
 	bigReads bool // the handler reads the request body through a 32 KiB buffer instead of exact-size reads
 	shape   int // stServer, stClient, stBidi
 	method  *MethodInfo
@@ -61,7 +62,7 @@ type c16Case struct {
 }
 
 func (k *c16Case) String() string {
-	return fmt.Sprintf("%s->%s codec %s->%s comp %q->%v rounds=%d size=%d empty=%v bigreads=%v shape=%s", k.form, k.target, k.codecC, k.codecS, k.compC, k.compS, k.rounds, k.size, k.empty, k.bigReads, streamName(k.shape))
+	return fmt.Sprintf("%s->%s codec %s->%s comp %q->%v rounds=%d size=%d empty=%v bigreads=%v unaligned=%d shape=%s", k.form, k.target, k.codecC, k.codecS, k.compC, k.compS, k.rounds, k.size, k.empty, k.bigReads, k.unaligned, streamName(k.shape))
 }
 
 func genC16(r *rand.Rand, h2cLeg bool) *c16Case {
@@ -91,6 +92,9 @@ func genC16(r *rand.Rand, h2cLeg bool) *c16Case {
 	// every fifth scenario sends messages with no field set: a zero-length payload behind the envelope
 	k.empty = k.size == 0 && chance(r, 60)
 	k.bigReads = chance(r, 50)
+	if chance(r, 25) {
+		k.unaligned = pick(r, []int{1, 3, 5, 7})
+	}
 	mk := func(i int, tag string) proto.Message {
 		if k.empty {
 			return newMsg(k.method.In())
@@ -204,11 +208,10 @@ func (h *c16Handler) ServeHTTP(w http.ResponseWriter, r *http.Request) {
 		return true
 	}
 	started := false
-	writeOne := func(i int) bool {
+	frameOf := func(i int) ([]byte, error) {
 		data, err := encodeMsg(codec, k.resps[i])
 		if err != nil {
-			h.err = err
-			return false
+			return nil, err
 		}
 		fl := byte(0)
 		if respComp != "" && !k.empty {
@@ -216,11 +219,35 @@ func (h *c16Handler) ServeHTTP(w http.ResponseWriter, r *http.Request) {
 			// payload really is zero bytes long)
 			data, fl = compressWith(respComp, data), 1
 		}
+		return appendFrame(nil, fl, data), nil
+	}
+	carry := 0
+	writeOne := func(i int) bool {
+		chunk, err := frameOf(i)
+		if err != nil {
+			h.err = err
+			return false
+		}
+		if k.unaligned > 0 {
+			// writes not aligned with message boundaries (a proxying handler): this Write ends message i and already
+			// carries the first bytes of frame i+1
+			chunk = chunk[carry:]
+			carry = 0
+			if i+1 < len(k.resps) {
+				if next, err := frameOf(i + 1); err == nil {
+					carry = k.unaligned
+					if carry > len(next) {
+						carry = len(next)
+					}
+					chunk = append(append([]byte(nil), chunk...), next[:carry]...)
+				}
+			}
+		}
 		if !started {
 			w.WriteHeader(200)
 			started = true
 		}
-		if _, err := w.Write(appendFrame(nil, fl, data)); err != nil {
+		if _, err := w.Write(chunk); err != nil {
 			h.err = fmt.Errorf("handler write %d: %w", i, err)
 			return false
 		}
